@@ -192,9 +192,11 @@ class Union():
         labels = np.argmax(p, axis=1)
         # If one of the clusters has less than n_points_min members, re-assign
         # the most likely members from the larger cluster to the smaller one.
-        if not np.all(np.bincount(labels) >= self.n_points_min):
-            label = np.argmin(np.bincount(labels))
-            labels[np.argsort(-p[:, label])[:self.n_points_min]] = label
+        if not np.all(np.bincount(labels, minlength=2) >= self.n_points_min):
+            label = np.argmin(np.bincount(labels, minlength=2))
+            other = np.flatnonzero(labels != label)
+            n_move = self.n_points_min - (len(labels) - len(other))
+            labels[other[np.argsort(-p[other, label])[:n_move]]] = label
 
         new_bounds = []
         points = self.points_bounds[index]
